@@ -1,47 +1,52 @@
 (* Props/C06.v — property C06: responses go only to registered URIs and carry exactly what was issued.
    Only statements, each closed by exact <lemma>, with Print Assumptions, and non-vacuity Examples.
    Models: Model/Uri.v (urllib.parse fragment, verify_uri, get_uri, the redirect decision),
-   Model/Delivery.v (query / fragment / form_post delivery), Lib/Html.v (html.escape). *)
+   Model/Delivery.v (query / fragment / form_post delivery), Lib/Html.v (html.escape).
+   The models follow the tree after the repairs 3a645c7 0513a4c 9e460b5 226f2a0 690cd16 d89f533 bd0ec73
+   0d1555c; the one recorded finding (empty path parameters, key empty-path-params-dropped) keeps its
+   guarded theorem and refuting witness. *)
 From Coq Require Import String.
 From Verif Require Import Lib.Base Lib.PyStr Lib.Urlenc Lib.Html Model.Uri Model.Delivery
-  Proofs.Html_proofs Proofs.Delivery_proofs Proofs.Uri_proofs.
+  Proofs.Html_proofs Proofs.Uri_proofs Proofs.Delivery_proofs.
 Open Scope N_scope.
 
 (* ================================================================== (a) the matcher *)
 
-(* Whatever verify_uri accepts has, after percent-decoding and parsing, no fragment, a host, a valid
-   port, an absolute (or empty) path, and the scheme, path, params and query multimap of one registered
-   URI; its netloc (user information, host, port) is that of the registered URI — for native clients
-   after both sides went through norm_native (see C06_native_port_only). *)
+(* Whatever verify_uri accepts has, after percent-decoding, no control character, no surrounding white
+   space and no fragment delimiter; parsed, it has a host, a valid port, an absolute (or empty) path, and
+   the scheme, path, params and query multimap (blank values included) of one registered URI; its netloc
+   (user information, host, port) is that of the registered URI — for native clients after both sides went
+   through norm_native (see C06_native_port_only / C06_native_keeps_host). *)
 Theorem C06_match_sound : forall regs native oidc u,
-  regs <> [] -> verify_uri regs native oidc u = Ok tt ->
+  verify_uri regs native oidc u = Ok tt ->
   exists d p r rp,
     unquote u = Ok d /\ urlparse d = Ok p /\ In r regs /\ parse_reg r = Ok rp /\
     fragment p = [] /\ hostname p <> None /\ (exists po, port p = Ok po) /\
     (path p = [] \/ starts_with [47] (path p) = true) /\
     scheme p = scheme (fst rp) /\ path p = path (fst rp) /\ params p = params (fst rp) /\ fragment (fst rp) = [] /\
-    (exists qd, parse_qs (query p) = Ok qd /\ qd_eqb qd (snd rp) = true) /\
+    (exists qd, parse_qs true (query p) = Ok qd /\ qd_eqb qd (snd rp) = true) /\
     (if native
      then exists p' r', norm_native p = Ok p' /\ norm_native (fst rp) = Ok r' /\ netloc p' = netloc r'
-     else netloc p = netloc (fst rp)).
+     else netloc p = netloc (fst rp)) /\
+    dirty d = false /\ has_c 35 d = false.
 Proof. exact verify_uri_sound. Qed.
 Print Assumptions C06_match_sound.
 
 (* web clients: host, port and user information are exactly the registered ones *)
 Theorem C06_match_sound_web : forall regs oidc u,
-  regs <> [] -> verify_uri regs false oidc u = Ok tt ->
+  verify_uri regs false oidc u = Ok tt ->
   exists d p r rp,
     unquote u = Ok d /\ urlparse d = Ok p /\ In r regs /\ parse_reg r = Ok rp /\
     fragment p = [] /\ scheme p = scheme (fst rp) /\ netloc p = netloc (fst rp) /\
     hostname p = hostname (fst rp) /\ port p = port (fst rp) /\
     path p = path (fst rp) /\ params p = params (fst rp) /\
-    (exists qd, parse_qs (query p) = Ok qd /\ qd_eqb qd (snd rp) = true).
+    (exists qd, parse_qs true (query p) = Ok qd /\ qd_eqb qd (snd rp) = true).
 Proof. exact verify_uri_sound_web. Qed.
 Print Assumptions C06_match_sound_web.
 
 (* native clients: normalisation touches nothing but the netloc, and the netloc only by cutting the
    text after its last colon when the scheme is http, the host one of the three loopback literals and
-   the port a non-zero number *)
+   the port a non-zero number ... *)
 Theorem C06_native_port_only : forall p p', norm_native p = Ok p' ->
   scheme p' = scheme p /\ path p' = path p /\ params p' = params p /\ query p' = query p /\ fragment p' = fragment p /\
   (netloc p' = netloc p \/
@@ -57,17 +62,25 @@ Proof. exact norm_native_keeps_host. Qed.
 Print Assumptions C06_native_keeps_host.
 
 Theorem C06_match_sound_native : forall regs oidc u,
-  regs <> [] -> verify_uri regs true oidc u = Ok tt ->
+  verify_uri regs true oidc u = Ok tt ->
   exists d p r rp,
     unquote u = Ok d /\ urlparse d = Ok p /\ In r regs /\ parse_reg r = Ok rp /\
     fragment p = [] /\ scheme p = scheme (fst rp) /\
     hostname p = hostname (fst rp) /\ userinfo_text (netloc p) = userinfo_text (netloc (fst rp)) /\
     path p = path (fst rp) /\ params p = params (fst rp) /\
-    (exists qd, parse_qs (query p) = Ok qd /\ qd_eqb qd (snd rp) = true).
+    (exists qd, parse_qs true (query p) = Ok qd /\ qd_eqb qd (snd rp) = true).
 Proof. exact verify_uri_sound_native. Qed.
 Print Assumptions C06_match_sound_native.
 
-(* the components the theorems speak about are literally the pieces of the (repair-free) text *)
+(* an accepted URI needs no repair by the parser (so the next two theorems apply to it unconditionally)
+   and neither its decoded nor its raw text contains a fragment delimiter *)
+Theorem C06_accepted_clean : forall regs native oidc u,
+  verify_uri regs native oidc u = Ok tt ->
+  exists d, unquote u = Ok d /\ clean d = true /\ has_c 35 d = false /\ has_c 35 u = false.
+Proof. exact verify_uri_accepted_clean. Qed.
+Print Assumptions C06_accepted_clean.
+
+(* the components the theorems speak about are literally the pieces of a repair-free text *)
 Theorem C06_components_are_pieces : forall d p, clean d = true -> urlsplit d = Ok p ->
   exists S rest rest2 rest3,
     ((scheme p = [] /\ rest = d) \/ (scheme p = lower S /\ d = S ++ 58 :: rest)) /\
@@ -90,54 +103,67 @@ Theorem C06_query_multimap : forall a b, qd_eqb a b = true ->
 Proof. exact qd_eqb_spec. Qed.
 Print Assumptions C06_query_multimap.
 
-(* a non-empty fragment, no host, a relative path or an invalid port: URIError, whatever is registered *)
+(* control characters or surrounding white space: URIError, whatever is registered *)
+Theorem C06_dirty_refused : forall regs native oidc u d,
+  unquote u = Ok d -> dirty d = true -> verify_uri regs native oidc u = Err uri_error.
+Proof. exact verify_uri_refuses_dirty. Qed.
+Print Assumptions C06_dirty_refused.
+
+(* a fragment delimiter (even with an empty fragment), no host, a relative path or an invalid port: URIError *)
 Theorem C06_malformed_refused : forall regs native oidc u d p,
-  unquote u = Ok d -> urlparse d = Ok p ->
-  (fragment p <> [] \/ hostname p = None \/ (path p <> [] /\ starts_with [47] (path p) = false) \/ port p = Err ValueError) ->
+  unquote u = Ok d -> dirty d = false -> urlparse d = Ok p ->
+  (has_c 35 d = true \/ fragment p <> [] \/ hostname p = None
+   \/ (path p <> [] /\ starts_with [47] (path p) = false) \/ port p = Err ValueError) ->
   verify_uri regs native oidc u = Err uri_error.
 Proof. exact verify_uri_refuses. Qed.
 Print Assumptions C06_malformed_refused.
 
-Theorem C06_nothing_registered_oidc : forall native u, verify_uri [] native true u <> Ok tt.
-Proof. exact verify_uri_nothing_registered_oidc. Qed.
-Print Assumptions C06_nothing_registered_oidc.
+(* nothing registered: refused for every endpoint type *)
+Theorem C06_nothing_registered : forall native oidc u, verify_uri [] native oidc u <> Ok tt.
+Proof. exact verify_uri_nothing_registered. Qed.
+Print Assumptions C06_nothing_registered.
 
 (* the model is not vacuously strict: a registered URI itself is accepted *)
 Theorem C06_match_complete : forall regs native oidc b p,
   In (RPair b None) regs -> regs_ok regs native ->
-  plain b = true -> urlparse b = Ok p -> basic_checks p = Ok tt -> query p = [] ->
+  plain b = true -> dirty b = false -> has_c 35 b = false ->
+  urlparse b = Ok p -> basic_checks p = Ok tt -> query p = [] ->
   verify_uri regs native oidc b = Ok tt.
 Proof. exact verify_uri_complete. Qed.
 Print Assumptions C06_match_complete.
 
-(* FULL STATEMENTS THAT ARE FALSE OF THE CODE (kept visible; the sound part is C06_match_sound):
-     (F1) accepted -> the decoded URI contains no fragment delimiter
-     (F2) accepted -> the decoded URI contains no TAB / CR / LF and no leading control character or space
-     (F3) accepted -> every query field of the decoded URI is a registered (name, value) pair
-     (F4) accepted -> the path of the decoded URI is the registered path, character by character
-     (F5) accepted -> something is registered (OAuth2 endpoint type)
-     (F6) a string registration with a query is matched including its query
-   Witnesses (each also replayed on the real endpoint by harness/drv_C06.py, oracle signatures
-   empty-fragment-accepted, ctl-char-stripped, blank-query-param-ignored, empty-path-params-dropped,
-   oauth2-nothing-registered, string-registration-query-dropped): *)
+(* THE ONE FULL STATEMENT THAT IS STILL FALSE OF THE CODE (recorded finding, oracle signature
+   empty-path-params-dropped):
+     accepted -> the path text of the decoded URI is the registered path text, character by character.
+   urlparse splits an empty parameter list off the last path segment, so the request path may carry one
+   extra trailing semicolon.  Guarded version (neither path text ends in a semicolon) and the witness: *)
+Theorem C06_path_exact_partial : forall d b p rp ps rps,
+  clean d = true -> clean b = true ->
+  urlparse d = Ok p -> urlparse b = Ok rp -> urlsplit d = Ok ps -> urlsplit b = Ok rps ->
+  path p = path rp -> params p = params rp ->
+  last_is 59 (path ps) = false -> last_is 59 (path rps) = false ->
+  path ps = path rps.
+Proof. exact path_exact_partial. Qed.
+Print Assumptions C06_path_exact_partial.
 Definition cb : pystr := PS "https://client.example.com/cb"%string.
-Example C06_F1_refuted : verify_uri [RPair cb None] false true (cb ++ [35]) = Ok tt
-                         /\ verify_uri [RPair cb None] false true (cb ++ PS "%23"%string) = Ok tt.
-Proof. split; vm_compute; reflexivity. Qed.
-Example C06_F2_refuted : verify_uri [RPair cb None] false true (PS "https://cli"%string ++ 9 :: PS "ent.example.com/cb"%string) = Ok tt
-                         /\ verify_uri [RPair cb None] false true (32 :: cb) = Ok tt
-                         /\ verify_uri [RPair cb None] false true (PS "https://cli%09ent.example.com/cb"%string) = Ok tt.
+Example C06_path_exact_refuted :
+  verify_uri [RPair cb None] false true (cb ++ [59]) = Ok tt
+  /\ exists ps rps, urlsplit (cb ++ [59]) = Ok ps /\ urlsplit cb = Ok rps /\ path ps <> path rps.
+Proof. split; [vm_compute; reflexivity|]. eexists. eexists. repeat split; try (vm_compute; reflexivity). vm_compute. discriminate. Qed.
+
+(* the statements that were false before the repairs now hold; the former witnesses are refused *)
+Example C06_former_witnesses_refused :
+  verify_uri [RPair cb None] false true (cb ++ [35]) = Err uri_error
+  /\ verify_uri [RPair cb None] false true (cb ++ PS "%23"%string) = Err uri_error
+  /\ verify_uri [RPair cb None] false true (PS "https://cli"%string ++ 9 :: PS "ent.example.com/cb"%string) = Err uri_error
+  /\ verify_uri [RPair cb None] false true (32 :: cb) = Err uri_error
+  /\ verify_uri [RPair cb None] false true (PS "https://cli%09ent.example.com/cb"%string) = Err uri_error
+  /\ verify_uri [RPair cb None] false true (cb ++ PS "?code="%string) = Err redirect_error
+  /\ verify_uri [RPair cb None] false true (cb ++ PS "?x"%string) = Err redirect_error
+  /\ verify_uri [] false false (PS "https://evil.example.org/cb"%string) = Err redirect_error
+  /\ verify_uri [RStr (cb ++ PS "?x=1"%string)] false true cb = Err redirect_error
+  /\ verify_uri [RStr (cb ++ PS "?x=1"%string)] false true (cb ++ PS "?x=1"%string) = Ok tt.
 Proof. repeat split; vm_compute; reflexivity. Qed.
-Example C06_F3_refuted : verify_uri [RPair cb None] false true (cb ++ PS "?code="%string) = Ok tt
-                         /\ verify_uri [RPair cb None] false true (cb ++ PS "?x"%string) = Ok tt.
-Proof. split; vm_compute; reflexivity. Qed.
-Example C06_F4_refuted : verify_uri [RPair cb None] false true (cb ++ [59]) = Ok tt.
-Proof. vm_compute; reflexivity. Qed.
-Example C06_F5_refuted : verify_uri [] false false (PS "https://evil.example.org/cb"%string) = Ok tt.
-Proof. vm_compute; reflexivity. Qed.
-Example C06_F6_refuted : verify_uri [RStr (cb ++ PS "?x=1"%string)] false true cb = Ok tt
-                         /\ verify_uri [RStr (cb ++ PS "?x=1"%string)] false true (cb ++ PS "?x=1"%string) = Err redirect_error.
-Proof. split; vm_compute; reflexivity. Qed.
 
 (* ================================================================== (c) an error is direct *)
 
@@ -196,57 +222,37 @@ Theorem C06_utf8_is_bytes : forall s b, utf8 s = Ok b -> is_bytes b.
 Proof. exact utf8_bytes. Qed.
 Print Assumptions C06_utf8_is_bytes.
 
-(* query mode, redirect URI without query: target unchanged, no fragment, parameters exact.
-   FULL STATEMENT (false): the same for every accepted redirect URI — an accepted URI may end in the
-   fragment delimiter (C06_F1_refuted), hence the explicit guard has 35 loc = false; the witness is
-   C06_delivery_query_refuted. *)
-Theorem C06_delivery_query_partial : forall loc l,
-  Forall pair_bytes l -> l <> [] -> has 63 loc = false -> has 35 loc = false ->
-  place loc (urlencode_b l) false = loc ++ 63 :: urlencode_b l
-  /\ split1_c 63 (place loc (urlencode_b l) false) = Some (loc, urlencode_b l)
-  /\ no_c 35 (place loc (urlencode_b l) false) = true
-  /\ parse_qsl_b (urlencode_b l) = l.
-Proof. exact place_query_plain. Qed.
-Print Assumptions C06_delivery_query_partial.
+(* query mode, for EVERY accepted redirect URI: the produced URL has no fragment delimiter, starts with
+   the accepted URI, and its query decodes to the URI's own parameters followed by exactly the issued ones *)
+Theorem C06_delivery_query : forall regs native oidc u l,
+  verify_uri regs native oidc u = Ok tt -> Forall pair_bytes l -> l <> [] ->
+  let r := place u (urlencode_b l) false in
+  no_c 35 r = true /\
+  ((has 63 u = false /\ split1_c 63 r = Some (u, urlencode_b l) /\ parse_qsl_b (urlencode_b l) = l)
+   \/ (exists base q0, u = base ++ 63 :: q0 /\ has 63 base = false
+        /\ split1_c 63 r = Some (base, q0 ++ 38 :: urlencode_b l)
+        /\ parse_qsl_b (q0 ++ 38 :: urlencode_b l) = parse_qsl_b q0 ++ l)).
+Proof. exact delivery_query_accepted. Qed.
+Print Assumptions C06_delivery_query.
 
-(* query mode, redirect URI with its own registered query: registered parameters, then exactly the issued ones *)
-Theorem C06_delivery_query_extend_partial : forall base q0 l,
-  Forall pair_bytes l -> l <> [] -> has 63 base = false -> has 35 (base ++ 63 :: q0) = false ->
-  let r := place (base ++ 63 :: q0) (urlencode_b l) false in
-  r = base ++ 63 :: (q0 ++ 38 :: urlencode_b l)
-  /\ split1_c 63 r = Some (base, q0 ++ 38 :: urlencode_b l)
-  /\ no_c 35 r = true
-  /\ parse_qsl_b (q0 ++ 38 :: urlencode_b l) = parse_qsl_b q0 ++ l.
-Proof. exact place_query_extend. Qed.
-Print Assumptions C06_delivery_query_extend_partial.
+(* fragment mode, for every accepted redirect URI *)
+Theorem C06_delivery_fragment : forall regs native oidc u l,
+  verify_uri regs native oidc u = Ok tt -> Forall pair_bytes l -> l <> [] ->
+  split1_c 35 (place u (urlencode_b l) true) = Some (u, urlencode_b l) /\ parse_qsl_b (urlencode_b l) = l.
+Proof. exact delivery_fragment_accepted. Qed.
+Print Assumptions C06_delivery_fragment.
 
-Theorem C06_delivery_query_refuted : forall loc l,
-  Forall pair_bytes l -> l <> [] -> has 63 loc = false -> has 35 loc = false ->
-  split1_c 35 (place (loc ++ [35]) (urlencode_b l) false) = Some (loc, 63 :: urlencode_b l).
-Proof. exact place_query_after_hash. Qed.
-Print Assumptions C06_delivery_query_refuted.
-
-(* fragment mode *)
-Theorem C06_delivery_fragment_partial : forall loc l,
-  Forall pair_bytes l -> l <> [] -> has 35 loc = false ->
-  place loc (urlencode_b l) true = loc ++ 35 :: urlencode_b l
-  /\ split1_c 35 (place loc (urlencode_b l) true) = Some (loc, urlencode_b l)
-  /\ parse_qsl_b (urlencode_b l) = l.
-Proof. exact place_fragment. Qed.
-Print Assumptions C06_delivery_fragment_partial.
-
-(* end-session: the post-logout target is the verified URI followed by the single parameter state — on a
-   URI without query.  FULL STATEMENT (false): for every accepted post_logout_redirect_uri; the code always
-   joins with a question mark, so a registered query swallows state (oracle signature logout-state-placement). *)
-Theorem C06_logout_state_partial : forall uri s b, utf8 s = Ok b -> has 63 uri = false -> has 35 uri = false ->
-  exists t, logout_target uri (Some s) = Ok t /\ split1_c 63 t = Some (uri, urlencode_b [(PS "state"%string, b)])
-            /\ no_c 35 t = true /\ parse_qsl_b (urlencode_b [(PS "state"%string, b)]) = [(PS "state"%string, b)].
-Proof. exact logout_target_plain. Qed.
-Print Assumptions C06_logout_state_partial.
-Example C06_logout_state_refuted :
-  exists t, logout_target (PS "https://c.example/lo?x=1"%string) (Some (PS "st"%string)) = Ok t
-            /\ parse_qsl_b (after_first 63 t) = [(PS "x"%string, PS "1?state=st"%string)].
-Proof. eexists. split; vm_compute; reflexivity. Qed.
+(* end-session: for every accepted post_logout_redirect_uri, state arrives as one more parameter *)
+Theorem C06_logout_state : forall regs native oidc uri s b,
+  verify_uri regs native oidc uri = Ok tt -> utf8 s = Ok b ->
+  exists t, logout_target uri (Some s) = Ok t /\ no_c 35 t = true /\
+    ((has 63 uri = false /\ split1_c 63 t = Some (uri, urlencode_b [(PS "state"%string, b)])
+      /\ parse_qsl_b (urlencode_b [(PS "state"%string, b)]) = [(PS "state"%string, b)])
+     \/ (exists base q0, uri = base ++ 63 :: q0 /\ has 63 base = false
+          /\ split1_c 63 t = Some (base, q0 ++ 38 :: urlencode_b [(PS "state"%string, b)])
+          /\ parse_qsl_b (q0 ++ 38 :: urlencode_b [(PS "state"%string, b)]) = parse_qsl_b q0 ++ [(PS "state"%string, b)])).
+Proof. exact logout_state_accepted. Qed.
+Print Assumptions C06_logout_state.
 
 (* ================================================================== non-vacuity *)
 Definition lo4 : pystr := PS "http://127.0.0.1:8000/cb"%string.
@@ -263,7 +269,8 @@ Example C06_nonvacuous_match :
 Proof. repeat split; vm_compute; reflexivity. Qed.
 Example C06_nonvacuous_complete :
   exists p, In (RPair lo4 None) [RPair cb None; RPair lo4 None] /\ regs_ok [RPair cb None; RPair lo4 None] true
-            /\ plain lo4 = true /\ urlparse lo4 = Ok p /\ basic_checks p = Ok tt /\ query p = [].
+            /\ plain lo4 = true /\ dirty lo4 = false /\ has_c 35 lo4 = false
+            /\ urlparse lo4 = Ok p /\ basic_checks p = Ok tt /\ query p = [].
 Proof.
   eexists. split; [right; left; reflexivity|]. split.
   - eexists. split; [vm_compute; reflexivity|]. intros _. eexists. vm_compute. reflexivity.
@@ -282,5 +289,6 @@ Example C06_nonvacuous_delivery :
   deliver_url cb [(PS "state"%string, FStr (PS "a&b=c#d"%string)); (PS "scope"%string, FList [PS "openid"%string; PS "email"%string])] false
     = Ok (cb ++ PS "?state=a%26b%3Dc%23d&scope=openid+email"%string)
   /\ read_page (form_page cb [(PS "state"%string, PS """><script>alert(1)</script>"%string)])
-     = Some (cb, [(PS "state"%string, PS """><script>alert(1)</script>"%string)]).
-Proof. split; vm_compute; reflexivity. Qed.
+     = Some (cb, [(PS "state"%string, PS """><script>alert(1)</script>"%string)])
+  /\ logout_target (PS "https://c.example/lo?x=1"%string) (Some (PS "st"%string)) = Ok (PS "https://c.example/lo?x=1&state=st"%string).
+Proof. repeat split; vm_compute; reflexivity. Qed.
